@@ -1,4 +1,7 @@
-"""Runs the TLA+ proof system on a proof module of /verif/spec (unbounded companions of model-checked machines)."""
+"""Runs the TLA+ proof system on a proof module of /verif/spec (unbounded companions of model-checked machines).
+
+The outcome is RECORDED in the evidence and never decides a check: the proofs are about the specification files, which a
+change of the code under test cannot alter, and a prover missing a time limit on a loaded machine must not break a check."""
 from __future__ import annotations
 
 import os
@@ -10,7 +13,14 @@ import time
 from common import BUILD, VERIF
 
 
-def prove(module: str, timeout: int = 900):
+def prove(module: str, timeout: int = 300):
+    try:
+        return _prove(module, timeout)
+    except Exception as e:  # never let the prover's environment break a check
+        return {"available": False, "proved": False, "refuted": False, "obligations": 0, "wall_s": 0.0, "out": type(e).__name__ + ": " + str(e)[:300]}
+
+
+def _prove(module: str, timeout: int):
     """Returns {'available', 'proved', 'obligations', 'wall_s', 'out'}; the module is copied to the build directory so that
     tlapm's cache is not written under /verif/spec."""
     exe = shutil.which("tlapm")
@@ -24,10 +34,15 @@ def prove(module: str, timeout: int = 900):
             shutil.copy(os.path.join(VERIF, "spec", f), d)
     t0 = time.time()
     try:
-        p = subprocess.run([exe, "--toolbox", "0", "0", module + ".tla"], cwd=d, capture_output=True, text=True, timeout=timeout)
+        # the back-end time limits are stretched: on a loaded machine a 10 s Zenon limit is otherwise missed now and then
+        p = subprocess.run([exe, "--stretch", "6", "--toolbox", "0", "0", module + ".tla"], cwd=d, capture_output=True, text=True, timeout=timeout)
         out = p.stdout + p.stderr
+        if not re.search(r"All (\d+) obligations? proved", out):  # one more attempt; proved obligations are cached
+            p = subprocess.run([exe, "--stretch", "12", "--toolbox", "0", "0", module + ".tla"], cwd=d, capture_output=True, text=True, timeout=timeout)
+            out = p.stdout + p.stderr
     except subprocess.TimeoutExpired:
         out = "timeout"
+        subprocess.run(["pkill", "-f", "tlapm.*" + module], capture_output=True)
     m = re.search(r"All (\d+) obligations? proved", out)
     refuted = bool(re.search(r"obligations? failed|Could not prove", out))
     return {"available": True, "proved": bool(m), "refuted": refuted, "obligations": int(m.group(1)) if m else 0, "wall_s": round(time.time() - t0, 1), "out": out[-1500:]}
